@@ -42,6 +42,30 @@ S = {
  "C19-2": ("try_get gets a length fast path comparing value.len() (bytes) with the maximal char count", "a declared renamed value containing multi-byte characters"),
  "C20-1": ("histogram_opts! (name, help, buckets) arm drops non-finite bounds with retain(is_finite)", "unusual input: bucket lists containing -Inf, NaN or an explicit +Inf"),
  "C20-2": ("register_int_counter_vec_with_registry! loses local_inner_macros; its (name, help, ..) arm calls an unqualified opts!", "a caller that has its own opts! macro in scope (macro hygiene)"),
+ "C04-3": ("write_sample's timestamp guard changed from != 0 to > 0", "unusual input: a sample with a negative timestamp_ms (custom collector)"),
+ "C04-4": ("inf_seen hoisted out of the per-metric loop in the histogram arm of the text encoder", "a histogram family with >= 2 series where an earlier one has an explicit +Inf bucket and a later one has not"),
+ "C06-3": ("Desc::new merges the two passes over the const labels: values are hashed in HashMap iteration order", "two equal descriptors with >= 2 const labels built independently (hash seed); register admits a duplicate"),
+ "C06-4": ("register's scratch map of new dim hashes becomes a field that is not cleared on the early Err returns", "multi-step history: a multi-descriptor collector rejected on its second descriptor, then a later registration under the first name"),
+ "C07-3": ("gather de-duplicates samples of same-name families through a BTreeSet<Vec<LabelPair>> (LabelPair orders by name only)", "two or more collectors registered under one name with different const-label values"),
+ "C07-4": ("make_label_pairs skips variable labels whose value is the empty string", "a vector child created with an empty label value"),
+ "C08-3": ("proto carries the drained sum over to the hot shard only if it is > 0.0", "a running sum <= 0 or NaN at collect time, and a second collect"),
+ "C08-4": ("LocalHistogramCore::flush publishes shard.count before adding the sum", "interleaving: a collect inside a concurrent local flush"),
+ "C09-3": ("Desc::new validates label names in one late pass over the name set, stripping the '$' marker first", "unusual input: a CONST label literally named \"$x\""),
+ "C09-4": ("register's common-label clash check uses binary_search on desc.variable_labels (declaration order, unsorted)", "a vector whose variable labels are not in lexicographic order and clash with a registry common label"),
+ "C12-3": ("LocalHistogramCore::observe uses partition_point(|f| f < v)", "unusual input: a NaN observed through a local histogram lands in bucket 0"),
+ "C12-4": ("clear() returns early when count == 0 and flush() takes count/sum with mem::replace before its trailing clear()", "two cooperating edits + multi-step history: a second batch on the same local handle re-adds the first batch's bucket counts"),
+ "C13-3": ("generated Histogram compute_size / write_to_with_cached_sizes skip buckets whose upper bound is +Inf", "a hand-built or custom-collector family with an explicit +Inf bucket"),
+ "C13-4": ("ProtobufEncoder::encode serialises into a thread-local buffer that is not cleared on the `?` early returns", "multi-step: an encode refused after a valid family, then a later encode on the same thread"),
+ "C14-3": ("gather re-declares UNTYPED families as GAUGE while leaving the untyped payload", "a custom Collector exporting an UNTYPED family"),
+ "C14-4": ("register records the first-seen type per family name, gather overwrites declared types from that table, unregister keeps it", "multi-step history: register kind A, unregister, register kind B under the same name"),
+ "C16-3": ("proto_ext Metric::from_label drops label pairs with an empty value (protobuf model only)", "default features plus an empty-string label value"),
+ "C16-4": ("text encoder returns Err when *m.get_counter() == Default::default() (and likewise for the other payloads)", "--no-default-features plus a metric whose payload is still the zero value (MessageField default = unset vs plain default = zero)"),
+ "C17-3": ("bucket ordering check uses partial_cmp(next).expect(..)", "unusual input: NaN at index >= 1 of a bucket list panics instead of Err"),
+ "C17-4": ("get_or_create_metric returns self.children.read()[&hash].clone() after a separate insert", "interleaving: a concurrent remove between the insert and the index panics"),
+ "C18-3": ("LocalHistogram::observe_closure_duration holds borrow_mut() across f()", "re-entrant use of the same local histogram inside the closure (RefCell double borrow)"),
+ "C18-4": ("LocalHistogramTimer::observe returns early on !record before setting observed", "two cooperating sites: stop_and_discard leaves observed=false, Drop then records"),
+ "C20-3": ("prometheus::register maps Err(AlreadyReg) to Ok(())", "multi-step: the same metric registered twice through a default-registry macro"),
+ "C20-4": ("opts! merges several const-label maps first-wins (entry().or_insert_with) instead of last-wins (extend)", "unusual input: two label maps sharing a key"),
 }
 mpath = os.path.join(HERE, "seeded", "MATRIX.json")
 matrix = json.load(open(mpath)) if os.path.exists(mpath) else {}
